@@ -47,7 +47,10 @@ check('C14', 'model_checking',
       'Solve, FarField, NearField) of those runs and of frequency sweeps through main are validated by TraceLifecycle.tla in one batched TLC '
       'run (stale cache use, loads applied twice, results of another frequency are flagged per trace). Sweep step k of main equals a fresh '
       'run of main (text of the frequency dependent blocks). The same command line in 4 (8) fresh processes with different hash seeds and '
-      'allocation patterns gives byte-identical report and --output-cmdline file.',
+      'allocation patterns gives byte-identical report and --output-cmdline file. Histories also contain voltage changes and a load added '
+      'between computes; TLC must refute the two design variants the code does not implement (surviving skin-effect cache, kept matrix). '
+      'Unbounded length: Apalache proves an inductive invariant of spec/LifecycleInd.tla (typed restatement; initiation, consecution, '
+      'invariant => NoStaleUse /\\ FieldsFresh) and TLC checks that LifecycleInd refines Lifecycle.',
       'Trusted: TLC, the archetype list (harness/models.py), single-threaded BLAS for bit-exact comparison. Field requests are only issued after '
       'a compute at the current frequency (as main does); a field request after a frequency change without compute has no defined result.',
       'TLC model checking of Lifecycle.tla + history replay against fresh objects + batched trace validation', 'DESIGN.md 4 C14, 3.4')
